@@ -523,8 +523,12 @@ pub fn check_set(ctx: &mut Ctx, c: &SetCase) -> R {
     for i in 0..n {
         for j in i + 1..n {
             let (p, q) = (g[i * n + j], g[j * n + i]);
-            let tol = tau(xs[i], xs[j]) * (p.abs() + q.abs()) + TINY;
-            ctx.worst("gram: |K_ij - K_ji| / tol", (p - q).abs() / tol);
+            // k(x_i, x_j) and k(x_j, x_i) are the same expression in |x_i - x_j| (or in commuting sums and products), so
+            // the two entries may differ by a few units in the last place at most — not by the rounding error of the
+            // expansion, which grows with (x/l)^2: an asymmetry of that size already makes `is_symmetric` /
+            // `cholesky` reject the matrix
+            let tol = 4.0 * EPS * p.abs().max(q.abs()) + TINY;
+            ctx.worst("gram: |K_ij - K_ji| / (4 eps max|K|)", (p - q).abs() / tol);
             ensure!(
                 (p - q).abs() <= tol,
                 format!("C20/{}/gram/symmetric", kn),
